@@ -1,9 +1,10 @@
 """Which rule families decide which property (see DESIGN.md section 5)."""
-from .rules import r1, r3, r5, r2e
+from .rules import r1, r3, r5, r2e, r4, lexer
 
 
 PROPS = {
+    "C12": [r4.rule_R4a, lexer.rule_R4b, r4.rule_R4c, r4.rule_R4d, r5.rule_setters, r3.rule_R3c],
     "C14": [r1.rule_R1a, r1.rule_R1b, r2e.rule_R2e, r5.rule_undefined_typestate],
-    "C15": [r5.rule_defaults, r5.rule_setters, r5.rule_parse_entry, r5.rule_token_intake, r5.rule_undefined_typestate, r3.rule_R3d, r1.rule_R1a],
+    "C15": [r5.rule_defaults, r5.rule_setters, r5.rule_parse_entry, r5.rule_token_intake, r5.rule_undefined_typestate, r3.rule_R3d, r1.rule_R1a, r4.rule_R4c, r4.rule_R4d],
     "C17": [r3.rule_R3a, r3.rule_R3b, r3.rule_R3c, r3.rule_R3d],
 }
